@@ -604,7 +604,9 @@ fn field_ty(d: &mut Dice, l: &Layout, m: &Model, vi: usize, j: usize, generic: b
                 3 => FieldTy::new("E", format!("Er({v})")).with(|g| g.e = true),
                 4 => FieldTy::new("Er<N>", format!("Er({v})")).with(|g| g.n = true),
                 // the selected source *contains* the type parameter: the `Error` bound has to be put on the right type
-                _ => match d.pick(5) {
+                _ => match d.pick(7) {
+                    5 => FieldTy::new("Wrap2<E, u8>", format!("Wrap2(Er({v}), 7u8)")).with(|g| g.e = true),
+                    6 => FieldTy::new("Wrap2<u8, E>", format!("Wrap2(7u8, Er({v}))")).with(|g| g.e = true),
                     0 => FieldTy::new("Box<E>", format!("Box::new(Er({v}))")).with(|g| g.e = true),
                     1 => FieldTy::new("Wrap<E>", format!("Wrap(Er({v}), {v})")).with(|g| g.e = true),
                     2 => FieldTy::new("E::Err", format!("Er({v})")).with(|g| {
@@ -882,6 +884,11 @@ pub struct NotErr(pub u64);
 pub struct Wrap<T>(pub T, pub u64);
 impl<T> std::fmt::Display for Wrap<T> { fn fmt(&self, f: &mut std::fmt::Formatter<'_>) -> std::fmt::Result { write!(f, "Wrap({})", self.1) } }
 impl<T: std::fmt::Debug> StdError for Wrap<T> {}
+/// two type arguments, only one of them the parameter
+#[derive(Debug)]
+pub struct Wrap2<T, U>(pub T, pub U);
+impl<T, U> std::fmt::Display for Wrap2<T, U> { fn fmt(&self, f: &mut std::fmt::Formatter<'_>) -> std::fmt::Result { write!(f, "Wrap2") } }
+impl<T: std::fmt::Debug, U: std::fmt::Debug> StdError for Wrap2<T, U> {}
 /// a trait whose associated type is the error
 pub trait Tr { type Err: std::fmt::Debug; }
 impl<const K: usize> Tr for Er<K> { type Err = Er<K>; }
@@ -1030,7 +1037,7 @@ fn build_with(d: &mut Dice, nightly: bool) -> GenCase {
         if gu.a {
             labels.push("lifetime_generic".into());
         }
-        if variants.iter().any(|v| v.tys.iter().any(|t| matches!(t.decl.as_str(), "Box<E>" | "Wrap<E>" | "E::Err" | "<E as Tr>::Err" | "&'static E"))) {
+        if variants.iter().any(|v| v.tys.iter().any(|t| matches!(t.decl.as_str(), "Box<E>" | "Wrap<E>" | "Wrap2<E, u8>" | "Wrap2<u8, E>" | "E::Err" | "<E as Tr>::Err" | "&'static E"))) {
             labels.push("generic_source_type_composite".into());
         }
         for v in &variants {
@@ -1038,7 +1045,7 @@ fn build_with(d: &mut Dice, nightly: bool) -> GenCase {
                 match t.decl.as_str() {
                     "&'static E" => labels.push("generic_source_behind_reference".into()),
                     "E::Err" | "<E as Tr>::Err" => labels.push("generic_source_assoc_type".into()),
-                    "Box<E>" | "Wrap<E>" => labels.push("generic_source_in_path_args".into()),
+                    "Box<E>" | "Wrap<E>" | "Wrap2<E, u8>" | "Wrap2<u8, E>" => labels.push("generic_source_in_path_args".into()),
                     _ => {}
                 }
             }
@@ -1395,7 +1402,7 @@ fn classify(c: &GenCase, r: &CaseResult, f: &Finding) -> Option<String> {
 // ------------------------------------------------------------------------------------------------
 // properties
 
-const RULE: &str = "structs and enums (1..3 variants) whose variants/bodies are field layouts: 0..3 named or positional fields x attribute in {none, source, not(source), backtrace, not(backtrace), ignore, (backtrace, source), (source, backtrace), (source, not(backtrace)), (not(source), backtrace), (not(source), not(backtrace)), not(source, backtrace)} x name in {source, backtrace, other} x type in {distinct error types Er<K>, Box<dyn Error (+Send(+Sync(+UnwindSafe)) | +'static)>, Box<Er<K>>, type parameter E and types containing it (Box<E>, Wrap<E>, E::Err, <E as Tr>::Err, &'static E), const-generic Er<N>, Backtrace, near-miss types that are not called Backtrace (Option<Backtrace>, Box<Backtrace>, MyBacktrace), non-error types incl. a type parameter instantiated with a non-Error type}, variant-/struct-level ignore, generic (type, const, lifetime parameters in varying order, with inline bounds and/or a where-clause) and concrete; named layouts with a Backtrace-typed field under another name (nightly shard, source judged only); oracle: three-valued model (Some(i)/None/unspecified) of impl/doc/error.md and the statement vs. the data pointer of source()'s &dyn Error compared with the address of every field (boxed dyn: the boxed value); metamorphic twin without one non-candidate `ignore`; negative cases with two explicit sources must not compile; non-trivial = a layout with >= 2 fields and >= 1 attribute; distinct by program text";
+const RULE: &str = "structs and enums (1..3 variants) whose variants/bodies are field layouts: 0..3 named or positional fields x attribute in {none, source, not(source), backtrace, not(backtrace), ignore, (backtrace, source), (source, backtrace), (source, not(backtrace)), (not(source), backtrace), (not(source), not(backtrace)), not(source, backtrace)} x name in {source, backtrace, other} x type in {distinct error types Er<K>, Box<dyn Error (+Send(+Sync(+UnwindSafe)) | +'static)>, Box<Er<K>>, type parameter E and types containing it (Box<E>, Wrap<E>, Wrap2<E, u8>, Wrap2<u8, E>, E::Err, <E as Tr>::Err, &'static E), const-generic Er<N>, Backtrace, near-miss types that are not called Backtrace (Option<Backtrace>, Box<Backtrace>, MyBacktrace), non-error types incl. a type parameter instantiated with a non-Error type}, variant-/struct-level ignore, generic (type, const, lifetime parameters in varying order, with inline bounds and/or a where-clause) and concrete; named layouts with a Backtrace-typed field under another name (nightly shard, source judged only); oracle: three-valued model (Some(i)/None/unspecified) of impl/doc/error.md and the statement vs. the data pointer of source()'s &dyn Error compared with the address of every field (boxed dyn: the boxed value); metamorphic twin without one non-candidate `ignore`; negative cases with two explicit sources must not compile; non-trivial = a layout with >= 2 fields and >= 1 attribute; distinct by program text";
 
 fn assumptions() -> Vec<String> {
     vec![
